@@ -61,7 +61,7 @@ theorem tokenRes_quoteDouble (s R : Bytes) (h : noPair 39 s = true) :
     simp only [quoteDouble, List.cons.injEq, true_and]
     rw [show (quoteBody 34 false s).length + 1 = (quoteBody 34 false s ++ [34]).length by simp,
       show quoteBody 34 false s ++ 34 :: R = (quoteBody 34 false s ++ [34]) ++ R by simp, List.take_left]
-  simp only [tokenRes, hsym, litScan_quoteBody, htake, unquoteDouble_quoteDouble s h]
+  simp only [tokenRes, literalRes, hsym, litScan_quoteBody, htake, unquoteDouble_quoteDouble s h]
   simp
 
 /-- bytes that cannot continue a number started by decimal digits. -/
